@@ -245,7 +245,7 @@ def main(tier):
     g = vf.StateGraph.from_tlc(r.outfile, init_id=INIT_ID)
     if len(g.obs) != r.distinct or any(o is None for o in g.obs):
         raise vf.Infra("state identities of the emitted graph (%d) do not match TLC's distinct states (%d)" % (len(g.obs), r.distinct))
-    ev.add_tlc("bfs_v4", r, {"graph_states": len(g.obs), "graph_edges": g.nedges, "cfg": "MC_SkeletonBlocker_v4.cfg",
+    ev.add_tlc("bfs_v4", r, {"graph_states": len(g.obs), "graph_edges": g.nedges, "transitions_by_action": vf.by_action(g), "cfg": "MC_SkeletonBlocker_v4.cfg",
                              "in_model_theorems": ["InvRepr", "InvLinkCond", "InvContractHomotopy", "InvUnblocked",
                                                    "InvBettiAlg", "InvEulerPoincare", "InvB0"]})
     os.remove(r.outfile)
@@ -271,7 +271,7 @@ def main(tier):
     if rc.violation:
         return model_violation(ev, "contract_v5", rc)
     gc = vf.StateGraph.from_tlc(rc.outfile, init_id=INIT_ID)
-    ev.add_tlc("contract_v5", rc, {"graph_states": len(gc.obs), "graph_edges": gc.nedges, "cfg": cfg5})
+    ev.add_tlc("contract_v5", rc, {"graph_states": len(gc.obs), "graph_edges": gc.nedges, "transitions_by_action": vf.by_action(gc), "cfg": cfg5})
     os.remove(rc.outfile)
     evaluations += replay_graph(ev, "contract_v5", gc, replay_bins, 5, False, fnd, unknown, shards=4)
     distinct += len(gc.obs)
@@ -312,7 +312,7 @@ def main(tier):
                 gs.out[u] = out
                 ne += len(out)
             rs.distinct, rs.generated = len(gs.obs), ne  # simulation prints no BFS statistics: measured on the emitted graph
-            ev.add_tlc(part, rs, {"graph_states": len(gs.obs), "graph_edges": ne, "cfg": cfg, "simulate_num": num, "depth": depth})
+            ev.add_tlc(part, rs, {"graph_states": len(gs.obs), "graph_edges": ne, "transitions_by_action": vf.by_action(gs), "cfg": cfg, "simulate_num": num, "depth": depth})
             evaluations += replay_graph(ev, part, gs, replay_bins, nv, False, fnd, unknown)
             if part == "sim_v6":  # the 5-handle states are already counted by thm_v5
                 distinct += len(gs.obs)
